@@ -8,7 +8,7 @@ import gen as G
 import verde as vd
 
 ID = "C07"
-TRANSLATED = "coords"      # Gen/Coords.lean is regenerated from /repo by py2lean.py and bridged to the model in Props/C07.lean
+TRANSLATED = "gridcoords"  # Gen/Coords.lean (spacing_to_size, line_coordinates, the lines of grid_coordinates, …) and Gen/GridCoords.lean (its meshgrid / extra_coords part) are regenerated from /repo and bridged in Props/C07.lean
 FILES = ["verde/coordinates.py"]
 RULE = ("cases = corpus (ties, degenerate, spacing>extent) + seeded stream over line_coordinates / grid_coordinates / "
         "spacing_to_size / shape_to_spacing / profile_coordinates on dyadic, decimal and large-offset inputs plus malformed "
